@@ -32,6 +32,11 @@ pub fn decode_case_la(gt: &[u16], k: usize, its: &[Vec<u16>], p: &GenParams, lr:
     if la_variants && t.next(4) == 3 {
         gens::lookahead_variants(&mut grammar, &mut t);
     }
+    // a quarter of these grammars also carries AST control (clipped symbols, member names, user
+    // types): irrelevant for the language, but part of what the generated tables are made from
+    if la_variants && t.next(4) == 3 {
+        gens::ast_annotate(&mut grammar, &mut t);
+    }
     let ig = IGrammar::from(&grammar);
     let h = chart::min_heights(&ig);
     let inputs = its.iter().map(|t| gens::input_mode(&ig, &h, t, sentences_only)).collect();
